@@ -224,7 +224,9 @@ def run(seed, tier, driver):
                 break
     # ---- bursts: many well-formed messages in one segment, more than a maximum-size message's worth of octets
     for label, stream in (('burst_small', (pool['update_ok'] + pool['keepalive'] + pool['update_withdraw']) * 45),
-                          ('burst_max', pool['update_max4096'] + pool['keepalive'] + pool['update_max4096'] + pool['update_ok'])):
+                          ('burst_max', pool['update_max4096'] + pool['keepalive'] + pool['update_max4096'] + pool['update_ok']),
+                          # more than a thousand complete messages in one segment (a 64 kB read can hold 3400 KEEPALIVEs)
+                          ('burst_many', (pool['keepalive'] * 9 + pool['update_withdraw']) * 130)):
         base = None
         n = len(stream)
         for cuts in ([], [4096], [4097], [n // 2], [1000, 5000 % n if 5000 % n > 1000 else n - 1],
